@@ -455,6 +455,19 @@ func (g *Gen) Next(o Obs) (Op, bool) {
 			g.advanceCommit()
 			return Op{Kind: "save", St: g.state(), Note: "commit-only"}, true
 		case x < 61:
+			if g.term > 0 && g.r.Intn(2) == 0 {
+				// the vote alone changes, inside a term that is already recorded, with nothing else in the call: it
+				// has to be on the disk when the call returns (the node answers the candidate next)
+				v := g.ids[g.r.Intn(len(g.ids))]
+				if v == g.vote {
+					v = g.ids[(g.r.Intn(len(g.ids)-1)+1)%len(g.ids)]
+					if v == g.vote {
+						v = 0
+					}
+				}
+				g.vote = v
+				return Op{Kind: "save", St: g.state(), Note: "vote-only"}, true
+			}
 			g.term += uint64(1 + g.r.Intn(2))
 			g.vote = g.ids[g.r.Intn(len(g.ids))]
 			if g.r.Intn(3) == 0 {
